@@ -37,7 +37,7 @@ func emitManifest() {
 		Reason     string `json:"reason"`
 	}
 	var checks []check
-	var nas []na
+	nas := []na{}
 	var served []string
 	for _, id := range allPropertyIDs {
 		p := propReg[id]
